@@ -35,7 +35,6 @@ theorem dumpValues_ok_iff {τ : Type} (Y : Yaml τ) (d : Dict Val) :
       · intro h
         obtain ⟨t', ht⟩ := ih.mpr (fun kv hkv => h kv (List.mem_cons_of_mem _ hkv))
         rw [ht]; exact ⟨_, rfl⟩
-    | decimal s => simp [dumpValues, represent, Val.isSc]
     | row a b => simp [dumpValues, represent, Val.isSc]
     | slot a => simp [dumpValues, represent, Val.isSc]
     | other a => simp [dumpValues, represent, Val.isSc]
@@ -55,7 +54,6 @@ theorem dumpValues_eq {τ : Type} (Y : Yaml τ) (d : Dict Val) (d' : Dict τ) (h
         rw [h2] at h
         cases h
         rw [ih t' h2]; rfl
-    | decimal s => simp [dumpValues, represent] at h
     | row a b => simp [dumpValues, represent] at h
     | slot a => simp [dumpValues, represent] at h
     | other a => simp [dumpValues, represent] at h
@@ -73,7 +71,6 @@ theorem values_roundtrip {τ : Type} (Y : Yaml τ) (hY : Lawful Y) (d : Dict Val
     | sc s =>
       simp only [mapD, List.map_cons, tok, hY s] at ht ⊢
       rw [ht]
-    | decimal s => simp [Val.isSc] at hv
     | row a b => simp [Val.isSc] at hv
     | slot a => simp [Val.isSc] at hv
     | other a => simp [Val.isSc] at hv
@@ -196,7 +193,6 @@ theorem kept_isSc_iff_storable (r : Row) :
     cases hv : kv.2 with
     | sc s => rfl
     | row a b => rfl
-    | decimal s => have := h kv ⟨hkv, by simp [hv, Val.isRow]⟩; simp [hv, Val.isSc] at this
     | slot s => have := h kv ⟨hkv, by simp [hv, Val.isRow]⟩; simp [hv, Val.isSc] at this
     | other s => have := h kv ⟨hkv, by simp [hv, Val.isRow]⟩; simp [hv, Val.isSc] at this
   · rintro h kv ⟨hkv, hnr⟩
@@ -204,7 +200,6 @@ theorem kept_isSc_iff_storable (r : Row) :
     cases hv : kv.2 with
     | sc s => rfl
     | row a b => simp [hv, Val.isRow] at hnr
-    | decimal s => simp [hv, Val.storable] at this
     | slot s => simp [hv, Val.storable] at this
     | other s => simp [hv, Val.storable] at this
 
